@@ -60,6 +60,12 @@ def gen(rng, tier, n):
         if rng.random() < 0.5:
             x, y = y, x
             j1, j2 = j2, j1
+        if isinstance(j1, list) and len(j1) >= 1 and isinstance(x, dict) and x["t"].startswith("[]") and rng.random() < 0.5:
+            # y is x[:k]: the same backing array, another length, hence another JSON value (unless k = len)
+            k = rng.randint(0, len(j1))
+            yd = {"t": x["t"], "v": (x["v"] or [])[:k]}
+            ops.append({"op": "equal", "args": {"x": x, "y": yd, "yPrefixOfX": k}, "meta": {"expect": k == len(j1), "alias": True}})
+            continue
         ops.append({"op": "equal", "args": {"x": x, "y": y}, "meta": {"expect": canon(j1) == canon(j2)}})
     return ops
 
@@ -79,6 +85,8 @@ def judge(o, go, m):
     if m is None or "model" not in m:
         return "violation:driver", "driver gave no answer: %r" % (m,)
     mo = m["model"]
+    if go.get("equal_rev") is not None and go.get("equal_rev") != go.get("equal"):
+        return "violation", "Equal is not symmetric on the real code: Equal(x, y) = %r, Equal(y, x) = %r" % (go.get("equal"), go.get("equal_rev"))
     if go.get("outcome") != mo.get("outcome") or go.get("equal") != mo.get("equal"):
         return "violation", "Equal on the real code = %r, model (proved = JSON equality) = %r, spec = %r" % (go, mo, m.get("spec"))
     if m.get("spec") is not None and mo.get("outcome") == "ok" and m["spec"] != mo.get("equal"):
